@@ -94,7 +94,9 @@ def gen_elements(rng, tier="quick", common_prefix=False):
             "ntype": rng.choice(["int", "int", "int", "int64"])}
 
 
-def gen_backend(rng, ant, el):
+def gen_backend(rng, ant, el, big_w=False, wide=False):
+    """big_w: hundreds of PFB windows per block (SCALE: multi-pass or chunked paths inside one sub-block only engage
+    beyond some number of windows).  wide: many channels per block as well, so that a block exceeds 2**20 samples."""
     T, B = el["T"], el["B"]
     # precondition of the array: every request (at least one PFB window) exceeds the largest delay
     if ant.get("delays"):
@@ -103,11 +105,22 @@ def gen_backend(rng, ant, el):
     num_chans = rng.randint(1, min(nch_max, 6))
     start_chan = rng.randint(0, nch_max - num_chans)
     W = rng.choice([1, 2, 3, 4, 5, 6, 7, 8, 12])        # PFB windows per block
+    nsub = rng.randint(1, W + 3)
+    if big_w:
+        W = rng.choice([257, 300, 341, 511, 600, 1023])
+        nsub = rng.choice([1, 1, 2, 3, 4, 5, 7, 93])
+    if wide:
+        # a block of more than 2**20 samples with a channel count that is not a power of two
+        num_chans = min(nch_max, rng.choice([3, 5, 6, 12, 24]) if wide is True else rng.choice([24, 28, 20]))
+        start_chan = rng.randint(0, nch_max - num_chans)
+        per_spectrum = ant["n_ant"] * num_chans * 2 * ant["pols"]
+        W = int((2 ** 20 * (rng.choice([1.2, 1.5, 2.3]) if wide is True else float(wide))) / (per_spectrum * T)) + rng.choice([1, 2, 5])
+        nsub = rng.choice([1, 2, 3, 5, 8, 32])
     spb = W * T
     bps = 2 * ant["pols"] * el["bits"] // 8
     block_size = spb * ant["n_ant"] * num_chans * bps
     return {"start_chan": start_chan, "num_chans": num_chans, "block_size": block_size, "spb": spb, "W": W,
-            "blocks_per_file": rng.choice([1, 2, 2, 3, 4]), "num_subblocks": rng.randint(1, W + 3)}
+            "blocks_per_file": rng.choice([1, 2, 2, 3, 4]), "num_subblocks": nsub}
 
 
 # ---------------------------------------------------------------------------
